@@ -317,7 +317,10 @@ def run_case(case):
             pos = k - 1
             if b == "lsf" and n_planned:
                 victim = [n_ for n_, _ in subs][k - 1]
-                os.makedirs(proj.path(f".gwf/logs/{victim}.sh"), exist_ok=True)
+                blocked = proj.path(f".gwf/logs/{victim}.sh")
+                if os.path.isfile(blocked):
+                    os.remove(blocked)  # the copy an earlier invocation left there
+                os.makedirs(blocked, exist_ok=True)
                 r = proj.gwf_sub(["run"])
                 os.rmdir(proj.path(f".gwf/logs/{victim}.sh"))
                 if r.code == 0:
